@@ -4,6 +4,7 @@
 //   file <format> <fault>                a corrupted data file offered to a loader
 // and logs outcome class, exception type, NaN-ness of every output, whether outputs changed.  Built with
 // ASan+UBSan; a sanitizer report aborts the process and the check script records the vector being executed.
+#include <csignal>
 #include "trace.hpp"
 #include <GeographicLib/Geodesic.hpp>
 #include <GeographicLib/GeodesicExact.hpp>
@@ -211,6 +212,15 @@ static void do_nn(const vector<string>& t) {
   else if (fault == "ff" && !data.empty()) data[size_t(param) % data.size()] = char(0xff);
   else if (fault == "append") data += string(size_t(param % 50), 'x');
   else if (fault == "digit" && !data.empty()) { size_t k = size_t(param) % data.size(); if (isdigit((unsigned char) data[k])) data[k] = char('0' + (data[k] - '0' + 7) % 10); }
+  else if (fault.substr(0, 4) == "tok-") {   // format-aware: replace one field of the save by a boundary value
+    int treesize = 0, numpoints = 40; { istringstream hs(os.str()); if (!bin) { int v, rs, b; hs >> v >> rs >> b >> numpoints >> treesize; } }
+    if (bin) { memcpy(&numpoints, os.str().data() + 16 + 3 * 4, 4); memcpy(&treesize, os.str().data() + 16 + 4 * 4, 4); }
+    long long val = fault == "tok-ts" ? treesize : fault == "tok-ts1" ? treesize - 1 : fault == "tok-np" ? numpoints : fault == "tok-np1" ? numpoints - 1
+                  : fault == "tok-m1" ? -1 : fault == "tok-m2" ? -2 : 2000000000LL;
+    if (!bin) { vector<string> tok; { istringstream ts(data); string w; while (ts >> w) tok.push_back(w); }
+      if (!tok.empty()) { tok[size_t(param) % tok.size()] = to_string(val); data.clear(); for (auto& w : tok) { data += w; data += ' '; } } }
+    else { size_t words = (data.size() - 16) / 4; if (words) { int v = int(val); memcpy(&data[16 + 4 * (size_t(param) % words)], &v, 4); } }
+  }
   string res; bool usable = true;
   try { istringstream is(data); NearestNeighbor<double, double, Dist> m; m.Load(is, bin);
     // a tree that loads must be usable without memory errors
@@ -222,7 +232,10 @@ static void do_nn(const vector<string>& t) {
   vt::Rec r; r.str("e", "nn").b("bin", bin).str("fault", fault).i("param", param).str("out", res).b("usable", usable); r.emit(); fflush(stdout);
 }
 
+static void on_alarm(int) { _exit(124); }
 int main(int argc, char** argv) {
+  signal(SIGALRM, on_alarm);
+  unsigned wd = getenv("VERIF_WATCHDOG") ? unsigned(atoi(getenv("VERIF_WATCHDOG"))) : 30;
   vt::install_terminate();
   if (argc < 2) { fprintf(stderr, "usage: drv_contract DIR [skip] < vectors\n"); return 2; }
   g_dir = argv[1]; mkdir(g_dir.c_str(), 0755);
@@ -235,6 +248,7 @@ int main(int argc, char** argv) {
     auto t = vt::split(line); if (t.empty()) continue;
     // announce the vector before executing it, so that a crash is attributable
     fprintf(stderr, "@ %lld %s\n", n, line.c_str()); fflush(stderr);
+    alarm(wd);   // watchdog: a vector that does not return within wd seconds is a hang (exit code 124), attributed to this vector
     if (t[0] == "call") do_call(t); else if (t[0] == "str") do_str(t); else if (t[0] == "nn") do_nn(t);
   }
   return 0;
